@@ -7,6 +7,7 @@ require (
 	github.com/consensys/gnark-crypto v0.9.1
 	github.com/iden3/go-iden3-crypto v0.0.13
 	github.com/reilabs/gnark-lean-extractor/v2 v2.1.0
+	github.com/rs/zerolog v1.29.0
 	golang.org/x/crypto v0.25.0
 	worldcoin/gnark-mbu v0.0.0
 )
@@ -42,7 +43,6 @@ require (
 	github.com/mitchellh/reflectwalk v1.0.2 // indirect
 	github.com/mmcloughlin/addchain v0.4.0 // indirect
 	github.com/pmezard/go-difflib v1.0.1-0.20181226105442-5d4384ee4fb2 // indirect
-	github.com/rs/zerolog v1.29.0 // indirect
 	github.com/stretchr/testify v1.9.0 // indirect
 	github.com/x448/float16 v0.8.4 // indirect
 	golang.org/x/exp v0.0.0-20230905200255-921286631fa9 // indirect
